@@ -74,6 +74,9 @@ type Comment struct {
 	Kind string
 	// Of names the item a non-free comment is attached to (for messages only).
 	Of string
+	// Open: the comment runs to the very end of the source without a line
+	// terminator, so whatever is appended later may become part of it.
+	Open bool
 }
 
 // Body is an ordered list of items.
